@@ -491,6 +491,18 @@ func RunC20(t *testing.T) {
 	st.mu.Lock()
 	st.Evaluations += sweep
 	st.mu.Unlock()
+	// every variable-length field of every message and query type at every length 0..72
+	ns, sv, sc := c20LengthSweep()
+	if sv != nil {
+		if sc != nil {
+			saveFail("C20", "c20", sc, sv)
+		}
+		t.Fatalf("VIOLATION %s", sv)
+	}
+	st.Class("length-sweep", ns)
+	st.mu.Lock()
+	st.Evaluations += ns
+	st.mu.Unlock()
 	pre := c20prelude()
 	for i, c := range pre {
 		if v := c20replay(c); v != nil {
